@@ -96,7 +96,7 @@ def run_c02(ctx):
     })
     for t in txs[:2]:
         ctx.sample({"op": t["op"], "tr": t["tr"], "req": t["req"], "calls": t["calls"]})
-    ctx.assumptions += ["names are drawn from a 69-character ASCII alphabet (lengths 1..4000); payloads are random bytes up to 128 KiB",
+    ctx.assumptions += ["names: 3/4 from a 69-character ASCII alphabet, 1/4 arbitrary non-NUL bytes (lengths 1..4000, logged byte-exactly); payloads are random bytes up to max_write (1 MiB)",
                         "INIT is decided by C12"]
 
 
